@@ -65,6 +65,12 @@ def run(ctx):
     spec.loader.exec_module(c09)
     c09.qruntime_part(ctx, vlib.go_build_test(ctx, "c09"), quick)
     taskrunner(ctx, quick)
+    # (g) a controller that panics or fails between StartTrackingOutputs and CleanupOutputs gets a fresh tracker on restart
+    #     (output-tracking stage of C08: OutTrack.tla)
+    spec8 = importlib.util.spec_from_file_location("c08", os.path.join(os.path.dirname(os.path.abspath(__file__)), "c08.py"))
+    c08 = importlib.util.module_from_spec(spec8)
+    spec8.loader.exec_module(c08)
+    c08.outtrack(ctx, quick)
     ctx.cov["binding_selftest"].append({"see": "C05/C09 self-tests use the same judges (TraceRuntime, TraceBackoff)"})
     ctx.assumptions += [
         "goroutine leak = process goroutine count after Run returned and the harness stopped exceeds the count before the runtime was built",
